@@ -8,11 +8,14 @@ package main
 //       banker; Issues: RealmIssue banker; Delegations: the vault handed its LIVE cur to
 //       caller-supplied code).  These counters are the ground truth for "a banker minted by R was
 //       used": the driver reads them before/after every transaction.
+//   gno.land/r/verif/router - a third-party "payment router" the vault calls with an OriginSend banker of
+//       its own (written by the attacker: it pays out in instalments, and can keep the banker).
 //   gno.land/r/verif/mal    - the ATTACKER realm: one exported crossing function per attack.
 //   MsgRun scripts          - attacks that need a script (stale cur, callbacks, forged values).
 
 const vaultPath = "gno.land/r/verif/vault"
 const malPath = "gno.land/r/verif/mal"
+const routerPath = "gno.land/r/verif/router"
 const vDenom = "/gno.land/r/verif/vault:vcoin"
 
 // ADMIN is replaced by the bech32 address of the honest user u1.
@@ -22,6 +25,10 @@ import (
 	"chain"
 	"chain/banker"
 	"chain/runtime/unsafe"
+	"strconv"
+	"strings"
+
+	"gno.land/r/verif/router"
 )
 
 const admin = address("ADMIN")
@@ -32,6 +39,7 @@ var (
 	OriginUses  int
 	Issues      int
 	Delegations int
+	OriginGrants int
 	blob        []string
 )
 
@@ -48,7 +56,7 @@ func itoa(n int) string {
 }
 
 func Counters() string {
-	return itoa(Spends) + "," + itoa(OriginUses) + "," + itoa(Issues) + "," + itoa(Delegations) + "," + itoa(len(blob))
+	return itoa(Spends) + "," + itoa(OriginUses) + "," + itoa(Issues) + "," + itoa(Delegations) + "," + itoa(len(blob)) + "," + itoa(OriginGrants)
 }
 
 func mustAdmin(cur realm) address {
@@ -97,6 +105,28 @@ func ForwardAmount(cur realm, to address, amt int64) {
 	b.SendCoins(cur.Address(), to, chain.Coins{{"ugnot", amt}})
 }
 
+// ForwardParts pays the coins sent with the call on in instalments ("a,b,c" ugnot) through ONE
+// origin-send banker: their running total must stay within what came with the call.
+func ForwardParts(cur realm, to address, parts string) {
+	OriginUses++
+	b := banker.NewBanker(banker.BankerTypeOriginSend, cur)
+	for _, p := range strings.Split(parts, ",") {
+		n, err := strconv.Atoi(p)
+		if err != nil {
+			panic("bad part " + p)
+		}
+		b.SendCoins(cur.Address(), to, chain.Coins{{"ugnot", int64(n)}})
+	}
+}
+
+// PayoutVia hands an origin-send banker over the vault's own address to the third-party router,
+// which is meant to forward - at most - the coins the caller sent along.
+func PayoutVia(cur realm, to address, parts string) {
+	OriginGrants++
+	b := banker.NewBanker(banker.BankerTypeOriginSend, cur)
+	router.Route(b, cur.Address(), to, parts)
+}
+
 // MintTo / BurnFrom: the vault's own denomination, admin only.
 func MintTo(cur realm, to address, amt int64) {
 	mustAdmin(cur)
@@ -142,6 +172,42 @@ func Shrink(cur realm) {
 		blob[n-1] = ""
 		blob = blob[:n-1]
 	}
+}
+`
+
+const routerSrc = `package router
+
+import (
+	"chain"
+	"chain/banker"
+	"strconv"
+	"strings"
+)
+
+var (
+	kept     banker.Banker
+	keptFrom address
+)
+
+// Route pays "a,b,c" ugnot from 'from' to 'to' through the banker it was given; the part "keep"
+// stores the banker for later transactions.
+func Route(b banker.Banker, from, to address, parts string) {
+	for _, p := range strings.Split(parts, ",") {
+		if p == "keep" {
+			kept, keptFrom = b, from
+			continue
+		}
+		n, err := strconv.Atoi(p)
+		if err != nil {
+			panic("bad part " + p)
+		}
+		b.SendCoins(from, to, chain.Coins{{"ugnot", int64(n)}})
+	}
+}
+
+// Replay uses a banker kept in an earlier transaction.
+func Replay(cur realm, to address, amt int64) {
+	kept.SendCoins(keptFrom, to, chain.Coins{{"ugnot", amt}})
 }
 `
 
@@ -390,6 +456,37 @@ func main(cur realm) {
 	r := vault.LeakPrev(cross(cur))
 	b := banker.NewBanker(banker.BankerTypeRealmSend, r)
 	b.SendCoins(address("VAULT"), address("ATT"), chain.Coins{{"ugnot", 99}})
+}
+`,
+	// instalments through the script's own origin-send banker (its own coins) and through the vault
+	"run-inst-own": `package main
+
+import (
+	"chain"
+	"chain/banker"
+)
+
+func main(cur realm) {
+	b := banker.NewBanker(banker.BankerTypeOriginSend, cur)
+	for i := 0; i < 3; i++ {
+		b.SendCoins(cur.Address(), address("U2"), chain.Coins{{"ugnot", PARTA}})
+	}
+}
+`,
+	"run-forward-parts": `package main
+
+import "gno.land/r/verif/vault"
+
+func main(cur realm) {
+	vault.ForwardParts(cross(cur), address("ATT"), "PARTS")
+}
+`,
+	"run-payout-via": `package main
+
+import "gno.land/r/verif/vault"
+
+func main(cur realm) {
+	vault.PayoutVia(cross(cur), address("ATT"), "PARTS")
 }
 `,
 	// forged values: must not even type-check
